@@ -352,6 +352,19 @@ var (
 	}
 )
 
+// numberLike returns true if the lowercase token is spelled like an integer, a
+// float or a ratio as read with the default *read-base*.
+func numberLike(token []byte) bool {
+	return intRxs[10].Match(token) ||
+		decimalRegex.Match(token) ||
+		eFloatRegex.Match(token) ||
+		doubleFloatRegex.Match(token) ||
+		shortFloatRegex.Match(token) ||
+		singleFloatRegex.Match(token) ||
+		longFloatRegex.Match(token) ||
+		ratioRxs[10].Match(token)
+}
+
 // Code is a list of S-Expressions read from LISP source code. It is a means
 // of keeping loaded code together so that it can be evaluated and optimized
 // for subsequent evaluations.
